@@ -189,6 +189,29 @@ func runRound(r *hx.Run, rng *hx.Rng, kind string, writers []func(*hx.Rng), subs
 			}
 		}()
 	}
+	// churners subscribe and unsubscribe in a tight loop while the writers run: many registrations, so that the
+	// narrow hand-off windows (registration vs. a concurrent update) are actually hit
+	nchurn := rng.Range(0, 2)
+	for i := 0; i < nchurn; i++ {
+		cr := hx.NewRng(rng.U64())
+		wg.Add(1)
+		go func() {
+			defer wg.Done()
+			<-start
+			for k := cr.Range(10, 40); k > 0; k-- {
+				s := rd.newSub()
+				if p := hx.Safely(func() { subscribe(rd, s, cr.Bool()) }); p != "" {
+					r.Fail("panic", "OnUpdate panicked: "+p, map[string]string{"oracle": "panic", "mode": "stress", "kind": kind})
+
+					return
+				}
+				if cr.Chance(1, 3) {
+					runtime.Gosched()
+				}
+				rd.doUnsub(s)
+			}
+		}()
+	}
 	nuns := rng.Range(1, 2)
 	go func() { subWg.Wait(); close(handles) }()
 	for i := 0; i < nuns; i++ {
@@ -206,7 +229,7 @@ func runRound(r *hx.Run, rng *hx.Rng, kind string, writers []func(*hx.Rng), subs
 			}
 		}()
 	}
-	r.CountN("stress:goroutines", len(writers)+nsub+nuns)
+	r.CountN("stress:goroutines", len(writers)+nsub+nuns+nchurn)
 	close(start)
 	if !join(&wg) {
 		r.Fail("timeout", fmt.Sprintf("round on a %s did not finish within %s", kind, joinTimeout),
@@ -619,7 +642,7 @@ func runStressLines(r *hx.Run, op string) {
 }
 
 func runStress(r *hx.Run) {
-	rounds := 900 * r.Scale
+	rounds := 4000 * r.Scale
 	kinds := []string{"var", "set", "var", "set", "event"}
 	for i := 0; i < rounds; i++ {
 		seed := r.Rng.U64()
